@@ -314,6 +314,7 @@ func c09Specs(tier string) []*h.CrashSpec {
 			Histories: hs,
 			ModelJSON: func(w *h.World) string { return regM(w).String() },
 			Recover:   c09Recover(f, repo, items, tags, subjects, pol, st.name == "new-repository" || tier == "thorough"),
+			Faults:    true,
 		})
 	}
 	// an index and its children: pushing the index moves the children's entries out of index.json, deleting it by
@@ -363,6 +364,7 @@ func c09Specs(tier string) []*h.CrashSpec {
 				Histories: hx,
 				ModelJSON: func(w *h.World) string { return regM(w).String() },
 				Recover:   c09Recover(f, repo, itemsX, tagsX, nil, pol),
+				Faults:    true,
 			})
 		}
 	}
@@ -373,6 +375,7 @@ func init() {
 	h.RegisterCrash(&h.CrashCheck{
 		ID: "C09",
 		Rule: "for every history of length <= 3 (quick) / <= 4 (thorough, within the time budget) over 13 single-request operations (blob uploads, first push, tag move, second tag, two artifact pushes for one subject, tag / digest / artifact delete, collection tick) from four start states, plus three longer scripts, plus the same lengths over 7 operations on an index and its children (push by digest / tag, delete of the index, of a child, of the tag, tick) from two start states: every mutating filesystem call of the directory store (mkdir, create-temp, write, write-file, rename, remove) is a crash point and every write is torn after 0, n/2 and n-1 bytes; " +
+			"additionally every mutating call inside the last request of a history returns an I/O error (EIO) instead: the request runs to its end, the process is killed at the request boundary; " +
 			"after each crash the server is discarded without Close, a new one is opened on the directory, and the oracle checks that the repository loads, every blob file hashes to its name, every tag resolves to a complete image, and the readable state equals the model before or after the interrupted request; non-trivial = distinct recovered directory trees",
 		Assume: []string{"process-crash model: everything issued before the crash point is on disk, nothing after it (loss of un-synced pages is outside the property)", "left-over temporary files under _uploads/ and index.json.* are not violations", "collection policy: untagged and dangling referrers collected, no grace period, so that ticks remove content"},
 		Specs:  c09Specs,
